@@ -133,7 +133,7 @@ def _a2(ctx, rep):
             continue
         handled = {}
         for n in ast.walk(lp):
-            if isinstance(n, ast.If) and isinstance(n.test, ast.Compare) and "mode_stopping_criterion_gradient_descent" in unparse(n.test.left) \
+            if isinstance(n, ast.If) and isinstance(n.test, ast.Compare) and "mode_stopping_criterion_gradient_descent" in unparse(_di(f, n.test.left)) \
                     and isinstance(n.test.ops[0], ast.Eq):
                 m = const(n.test.comparators[0])
                 sets = any(isinstance(s, ast.Assign) and unparse(s.targets[0]) == "error_value" for s in n.body)
@@ -157,6 +157,10 @@ def _a2(ctx, rep):
                             handled[m] = any((isinstance(s_, ast.Assign) and unparse(s_.targets[0]) in rets) or isinstance(s_, ast.Return) for s_ in c.body)
         missing = [m for m in accepted if not handled.get(m)]
         extra = [m for m in handled if m not in accepted]
+        if not handled:
+            rep.undecided("A2", f, "stopping modes", "no dispatch on the stopping mode found in the main loop (neither `if <mode> == ...` branches "
+                                                     "nor a private helper handed the mode)")
+            continue
         rep.check(not missing, "A2", f, "stopping modes", "all %d accepted modes define error_value" % len(accepted),
                   "mode(s) %s are accepted by the option but no branch defines error_value (the previous value would be re-used)" % missing, node=lp)
         if extra:
@@ -223,7 +227,8 @@ def _a2(ctx, rep):
             lo = av.args[0].slice.lower
             if isinstance(lo, ast.UnaryOp) and isinstance(lo.op, ast.USub) and isinstance(lo.operand, ast.Call) and dotted(lo.operand.func) == "min" \
                     and len(lo.operand.args) == 2:
-                ws = sorted(unparse(x) for x in lo.operand.args)
+                # a window length read from the option before the loop (hoisted loop invariant) is written out
+                ws = sorted(unparse(_di(f, x) if isinstance(x, ast.Name) else x) for x in lo.operand.args)
                 ok_win = ("len(%s)" % lst) in ws and any(w.endswith(".num_history_stopping_criterion_gradient_descent") for w in ws) \
                     and any(isinstance(c_, ast.Call) and isinstance(c_.func, ast.Attribute) and c_.func.attr == "append" and unparse(c_.func.value) == lst
                             for c_ in ast.walk(lp))
@@ -288,6 +293,7 @@ def _a3(ctx, rep):
     from ..astutil import norm_atom, clone
     from ..symsum import subst
     from ..resolve import bind_call
+    unread_helpers = set()
     for n in cfg.nodes:
         c_ = n.ast if isinstance(n.ast, ast.Call) else (n.ast.value if isinstance(n.ast, ast.Expr) and isinstance(n.ast.value, ast.Call) else None)
         if c_ is None or not cfg.dominates(n, on):
@@ -303,6 +309,7 @@ def _a3(ctx, rep):
             b, errs = bind_call(c_, t, isinstance(c_.func, ast.Attribute) and t.kind == "method")
         except Exception:
             continue
+        n_before = len(guards)
         for st in t.node.body:
             if isinstance(st, ast.If) and not st.orelse and st.body and isinstance(st.body[-1], ast.Raise) and "sufficient()" in unparse(st.test):
                 guards.append(unparse(subst(st.test, b)))
@@ -326,12 +333,29 @@ def _a3(ctx, rep):
                                         and isinstance(n_.args[1].value, str):
                                     return ast.Attribute(value=n_.args[0], attr=n_.args[1].value, ctx=ast.Load())
                                 return n_
+
+                            def visit_Subscript(self, n_):
+                                # owner looked up in a local literal dictionary: targets = {"loss": loss, ...}; targets["loss"]
+                                self.generic_visit(n_)
+                                if isinstance(n_.value, ast.Name) and isinstance(n_.slice, ast.Constant):
+                                    d_ = single_defs(t).get(n_.value.id)
+                                    if isinstance(d_, ast.Dict) and all(isinstance(k_, ast.Constant) for k_ in d_.keys):
+                                        for k_, v_ in zip(d_.keys, d_.values):
+                                            if k_.value == n_.slice.value:
+                                                return subst(clone(v_), b)
+                                return n_
                         guards.append(unparse(ast.fix_missing_locations(G().visit(tt))))
+        if len(guards) == n_before and "sufficient" in ast.dump(t.node) + " ".join(unparse(v_) for v_ in t.module.assigns.values() if isinstance(v_, (ast.Tuple, ast.List, ast.Dict))):
+            unread_helpers.add(t.name)
     want = ["loss.is_option_sufficient() == False", "algo.is_loss_sufficient() == False", "algo.is_option_sufficient() == False",
             "algo.is_loss_and_option_sufficient() == False"]
     norm = [g.replace("not ", "").replace(" == False", "").replace(" is False", "") for g in guards]
     miss = [w.replace(" == False", "") for w in want if w.replace(" == False", "") not in norm]
-    rep.check(not miss, "A3", f, "sufficiency guards", "all four sufficiency checks raise before optimize", "missing guard(s) %s before optimize" % miss, node=lp)
+    if miss and unread_helpers:
+        rep.undecided("A3", f, "sufficiency guards", "guard(s) %s not found in the loop; the helper(s) %s called before optimize mention the sufficiency "
+                                                     "checks in a form that is not read" % (miss, sorted(unread_helpers)))
+    else:
+        rep.check(not miss, "A3", f, "sufficiency guards", "all four sufficiency checks raise before optimize", "missing guard(s) %s before optimize" % miss, node=lp)
     a = opt[0].args
     ok = len(a) >= 3 and [unparse(x) for x in a[:3]] == ["loss", "loss_option", "algo_option"]
     rep.check(ok, "A3", f, opt[0], "optimize(loss, loss_option, algo_option)", "optimize is called with %s" % [unparse(x) for x in a[:3]], node=opt[0])
@@ -424,6 +448,7 @@ def _norm2_of(e):
 
 
 def _a5(ctx, rep):
+    from ..astutil import deep_inline as _di5
     f = ctx.ix.func(ALGOS["backtracking"])
     lp = _main_loop(f)
     if lp is None:
@@ -435,8 +460,8 @@ def _a5(ctx, rep):
             defs.setdefault(st.targets[0].id, st.value)
     branches = {}
     for n in ast.walk(lp):
-        if isinstance(n, ast.If) and isinstance(n.test, ast.Compare) and "mode_stopping_criterion_gradient_descent" in unparse(n.test.left) \
-                and isinstance(n.test.ops[0], ast.Eq):
+        if isinstance(n, ast.If) and isinstance(n.test, ast.Compare) and isinstance(n.test.ops[0], ast.Eq) \
+                and "mode_stopping_criterion_gradient_descent" in unparse(_di5(f, n.test.left)):
             m = const(n.test.comparators[0])
             for st in n.body:
                 if isinstance(st, ast.Assign) and unparse(st.targets[0]) == "error_value":
